@@ -219,3 +219,173 @@ Proof.
              unfold zlen; cbn [length]; reflexivity
          end.
 Qed.
+
+Lemma marshal_uint_no_fuel v room : (v < 2^64)%N -> fst (marshal_uint v room) <> WFuel.
+Proof.
+  intros Hv. rewrite (marshal_uint_buffer v room Hv).
+  destruct (room <? length (enc_uint v))%nat; cbn [fst]; congruence.
+Qed.
+
+Theorem gen_MarshalUint_refines : forall h buf v, wf_slice h buf -> 0 <= v < 2^64 ->
+  Gen.MarshalUint v buf h = wr_result (marshal_uint (Z.to_N v) (Z.to_nat (s_len buf))) h buf.
+Proof.
+  intros h buf v W Hv. pose proof W as (Wa & Wo & Wl & Wc & Wm).
+  assert (HvN : (Z.to_N v < 2^64)%N) by (change (2^64)%N with 18446744073709551616%N; lia).
+  pose proof (marshal_uint_no_fuel (Z.to_N v) (Z.to_nat (s_len buf)) HvN) as Hne.
+  unfold Gen.MarshalUint. cbv beta iota zeta.
+  match goal with |- iter ?f _ _ _ = _ =>
+    pose proof (gen_MarshalUint_loop 10 buf f v 0 h W ltac:(lia) ltac:(lia)) as L
+  end.
+  rewrite Z.sub_0_r in L. fold (marshal_uint (Z.to_N v) (Z.to_nat (s_len buf))) in L.
+  rewrite L by (try exact Hne; lia). unfold wr_result, w_n.
+  destruct (marshal_uint (Z.to_N v) (Z.to_nat (s_len buf))) as [st bs]. cbn [fst snd].
+  repeat f_equal. destruct st; try reflexivity; rewrite zlen_zs; lia.
+Qed.
+Print Assumptions gen_MarshalUint_refines.
+
+(** * Variable-length uint: UnmarshalUint *)
+
+(* uint(x) << s as modelled in GoLite = the model's shl64 *)
+Lemma shl_u64_N x s : 0 <= x -> 0 <= s ->
+  shl u64 64 x s = Z.of_N (shl64 (Z.to_N x) (Z.to_N s)).
+Proof.
+  intros Hx Hs. unfold shl, shl64.
+  destruct (Z.leb_spec 64 s); destruct (N.leb_spec 64 (Z.to_N s)); try lia.
+  unfold u64, two64. rewrite N2Z.inj_mod, N2Z_shiftl, !Z2N.id by lia. reflexivity.
+Qed.
+
+(* res | uint(b&127) << shft on both sides *)
+Lemma acc_byte res b shft : 0 <= res -> 0 <= shft -> 0 <= b ->
+  Z.lor res (shl u64 64 (u64 (Z.land b 127)) shft) =
+  Z.of_N (N.lor (Z.to_N res) (shl64 (N.land (Z.to_N b) 127) (Z.to_N shft))).
+Proof.
+  intros Hr Hs Hb.
+  assert (Hm : 0 <= Z.land b 127 < 128) by (rewrite zland127; lia).
+  rewrite u64_small by lia. rewrite shl_u64_N by lia.
+  rewrite N2Z_lor, Z2N.id by lia. do 3 f_equal.
+  apply N2Z.inj. rewrite N2Z_land, !Z2N.id by lia. reflexivity.
+Qed.
+
+Lemma skipn_cons_nth (l : list N) i b tl : skipn i l = b :: tl ->
+  nth i l 0%N = b /\ skipn (S i) l = tl /\ (i < length l)%nat.
+Proof.
+  revert l. induction i as [|i IH]; intros l H.
+  - destruct l; [discriminate|]. cbn in H. injection H as -> ->. cbn. repeat split. lia.
+  - destruct l as [|x t]; [discriminate|]. cbn [skipn] in H.
+    destruct (IH t H) as (A & B & C). cbn [nth skipn length]. repeat split; [exact A|exact B|lia].
+Qed.
+
+Lemma skipn_nil_len (l : list N) i : skipn i l = [] -> (length l <= i)%nat.
+Proof.
+  revert l. induction i as [|i IH]; intros l H.
+  - cbn in H. subst. cbn. lia.
+  - destruct l as [|x t]; [cbn; lia|]. cbn [skipn length] in *. apply IH in H. lia.
+Qed.
+
+Lemma byte_list_znth l i : byte_list l -> 0 <= i < zlen l -> 0 <= znth l i < 256.
+Proof.
+  intros Hb Hi. unfold znth, zlen, byte_list in *.
+  rewrite Forall_forall in Hb. apply Hb. apply nth_In. lia.
+Qed.
+
+(* the loop of UnmarshalUint from the state (res, idx, shft); rest is the
+   unread input.  The shift counter is a uint in Go and an unbounded N in the
+   model: they agree as long as 7*len(buf) < 2^64. *)
+Lemma gen_UnmarshalUint_loop : forall rest buf f res idx shft h,
+  wf_slice h buf -> byte_list (sl_get h buf) ->
+  0 <= idx <= s_len buf -> rest = skipn (Z.to_nat idx) (ns (sl_get h buf)) ->
+  0 <= res -> 0 <= shft -> shft + 7 * (s_len buf - idx) < 18446744073709551616 ->
+  (length rest < f)%nat ->
+  iter f (Gen.UnmarshalUint_loop1 buf) (res, idx, shft) h =
+  rd_result (unmarshal_uint_go rest (Z.to_N res) (Z.to_N shft) (Z.to_nat idx)) h.
+Proof.
+  induction rest as [|b tl IH]; intros buf f res idx shft h W Hb Hidx Hrest Hres Hshft Hsh Hf;
+    pose proof W as (Wa & Wo & Wl & Wc & Wm); pose proof (sl_get_len h buf W) as L;
+    (destruct f as [|f]; [cbn [length] in Hf; lia|]); rewrite iter_S;
+    unfold Gen.UnmarshalUint_loop1 at 1; cbn [unmarshal_uint_go]; symmetry in Hrest.
+  - (* no input left *)
+    apply skipn_nil_len in Hrest. rewrite length_ns in Hrest. unfold zlen in L.
+    go_run; unfold ret, rd_result; reflexivity.
+  - apply skipn_cons_nth in Hrest. destruct Hrest as (Hn & Htl & Hlt).
+    rewrite nth_ns in Hn. rewrite length_ns in Hlt. unfold zlen in L.
+    assert (Hz : znth (sl_get h buf) idx = Z.of_N b).
+    { unfold znth. rewrite <- Hn. rewrite Z2N.id; [reflexivity|].
+      apply (byte_list_znth (sl_get h buf) idx Hb). unfold zlen. lia. }
+    assert (Hacc : forall bz, bz = Z.of_N b ->
+              Z.lor res (shl u64 64 (u64 (Z.land bz 127)) shft) =
+              Z.of_N (N.lor (Z.to_N res) (shl64 (N.land b 127) (Z.to_N shft)))).
+    { intros bz ->. rewrite acc_byte by lia. rewrite N2Z.id. reflexivity. }
+    go_run;
+    lazymatch goal with
+    | |- iter _ _ _ _ = _ =>
+        go_unwrap; rewrite (Hacc _ Hz);
+        rewrite (IH buf f _ (idx + 1) (shft + 7) h W Hb) by (cbn [length] in Hf; first [lia | rewrite <- Htl; f_equal; lia]);
+        rewrite N2Z.id; do 2 f_equal; lia
+    | |- _ =>
+        unfold ret, rd_result; go_unwrap; rewrite (Hacc _ Hz); repeat f_equal; lia
+    end.
+Qed.
+
+Theorem gen_UnmarshalUint_refines : forall h buf,
+  wf_slice h buf -> byte_list (sl_get h buf) -> 7 * s_len buf < 18446744073709551616 ->
+  Gen.UnmarshalUint buf h = rd_result (unmarshal_uint (ns (sl_get h buf))) h.
+Proof.
+  intros h buf W Hb Hlen. pose proof W as (Wa & Wo & Wl & Wc & Wm).
+  pose proof (sl_get_len h buf W) as L. unfold zlen in L.
+  unfold Gen.UnmarshalUint, unmarshal_uint. cbv beta iota zeta.
+  match goal with |- iter ?f _ _ _ = _ =>
+    apply (gen_UnmarshalUint_loop (ns (sl_get h buf)) buf f 0 0 0 h W Hb); try lia; try reflexivity
+  end.
+  rewrite length_ns. lia.
+Qed.
+Print Assumptions gen_UnmarshalUint_refines.
+
+(** * Byte strings *)
+
+Lemma marshal_uint_cases v room : (v < 2^64)%N ->
+  (marshal_uint v room = (WOk, enc_uint v) /\ (length (enc_uint v) <= room)%nat) \/
+  (exists bs, marshal_uint v room = (WErr, bs)).
+Proof.
+  intros Hv. rewrite (marshal_uint_buffer v room Hv).
+  destruct (Nat.ltb_spec room (length (enc_uint v))); [right; eexists; reflexivity|left; split; [reflexivity|lia]].
+Qed.
+
+Theorem gen_MarshalBytes_refines : forall h buf v,
+  wf_slice h buf -> wf_slice h v -> s_arr buf <> s_arr v -> byte_list (sl_get h v) ->
+  Gen.MarshalBytes v buf h =
+  wr_result (marshal_bytes (ns (sl_get h v)) (Z.to_nat (s_len buf))) h buf.
+Proof.
+  intros h buf v W Wv Hne Hb. pose proof W as (Wa & Wo & Wl & Wc & Wm).
+  pose proof Wv as (Va & Vo & Vl & Vc & Vm).
+  pose proof (sl_get_len h v Wv) as L. unfold zlen in L.
+  unfold Gen.MarshalBytes, marshal_bytes. cbv beta iota zeta. rewrite length_ns.
+  assert (Hu : 0 <= u64 (s_len v) < 2 ^ 64) by (rewrite u64_small; lia).
+  go_call (gen_MarshalUint_refines h buf (u64 (s_len v)) W Hu).
+  rewrite u64_small by lia.
+  replace (Z.to_N (s_len v)) with (N.of_nat (length (sl_get h v))) by lia.
+  assert (HlN : (N.of_nat (length (sl_get h v)) < 2 ^ 64)%N)
+    by (change (2^64)%N with 18446744073709551616%N; lia).
+  destruct (marshal_uint_cases (N.of_nat (length (sl_get h v))) (Z.to_nat (s_len buf)) HlN)
+    as [[E Hroom]|[bs E]]; rewrite E; cbn [fst snd w_n err_of is_nil negb].
+  - (* the header fits *)
+    set (hdr := enc_uint (N.of_nat (length (sl_get h v)))) in *.
+    assert (W1 : wf_slice (sl_put h buf 0 (zs hdr)) buf)
+      by (apply wf_slice_put; [exact W|lia|rewrite zlen_zs; lia|exact W]).
+    assert (G : sl_get (sl_put h buf 0 (zs hdr)) v = sl_get h v)
+      by (apply sl_get_put_other; assumption).
+    go_run; unfold ret, wr_result; cbn [fst snd w_n err_of].
+    + (* the body does not fit *) reflexivity.
+    + (* copy(buf[idx:][:ln], v) *)
+      go_unwrap. rewrite G. go_rebase buf.
+      match goal with |- context [firstn ?n (sl_get h v)] =>
+        replace n with (length (sl_get h v)) by lia end.
+      rewrite firstn_all.
+      match goal with |- context [sl_put _ buf ?o (sl_get h v)] =>
+        replace o with (0 + zlen (zs hdr)) by (rewrite zlen_zs; lia) end.
+      rewrite sl_put_put_adj by (try exact W; rewrite ?zlen_zs; lia).
+      rewrite app_length, length_ns. unfold zs at 2. rewrite map_app. fold (zs hdr).
+      fold (zs (ns (sl_get h v))). rewrite (zs_ns _ Hb). repeat f_equal. lia.
+  - (* the header does not fit *)
+    go_run. unfold ret, wr_result. cbn [fst snd w_n err_of]. reflexivity.
+Qed.
+Print Assumptions gen_MarshalBytes_refines.
